@@ -20,7 +20,9 @@ MANIFEST = dict(
          "single-stepped through a gated JobQueue with schedule/replace/resume (and delete/pause/clear of other jobs) placed before Size, "
          "between Size and Head, between Head and select, parked on an empty queue / far head / paused head / mid-dispatch; every observed "
          "gate sequence is replayed in the Coq model and the due job must execute exactly once within a generous deadline; free-running "
-         "runs with a queue that sleeps inside Size/Head look for lost wake-ups. Promptness in real time is observed, not proved.",
+         "runs with a queue that sleeps inside Size/Head look for lost wake-ups; a MisfiredChan of capacity 0/1/2 whose listener never drains or "
+         "drains slowly meets more misfires in a row than it has room for, and OutdatedThreshold / RetryInterval are set to the ends of their "
+         "range (MaxInt64, MaxInt64/2, 1 ns): a job due shortly is dispatched and the API calls return. Promptness in real time is observed, not proved.",
     design_ref="6 C05")
 
 DEADLINE_MS = 5000
@@ -194,6 +196,55 @@ def confirm_gate(binp, seed, r, pred):
     return False
 
 
+def opts_oracle(r):
+    why = []
+    thr, ri = r["outdated_threshold_ns"], r["retry_interval_ns"]
+    if r["test"] == "misfire":
+        cfg = ("MisfiredChan of capacity %d whose listener %s, OutdatedThreshold 2 s, %d jobs scheduled 10 s in the past (misfires in a row), %s mode"
+               % (r["misfired_chan_cap"], "never drains" if r["listener"] == "never" else "takes 150 ms per event", r["misfires_in_a_row"], r["mode"]))
+    else:
+        cfg = ("OutdatedThreshold %s, RetryInterval %s, %s mode" % ("default" if thr == 0 else "%d ns" % thr, "default" if ri == 0 else "%d ns" % ri, r["mode"]))
+    if r.get("api_call_hung"):
+        why.append("%s: %s did not return within 5 s (the loop holds the queue lock)" % (cfg, r["api_call_hung"]))
+    if r["due_execs"] != 1:
+        why.append("%s: a job scheduled to be due 10-15 ms later was executed %d times within the deadline%s" % (
+            cfg, r["due_execs"], "" if r["must_execute"] else " and was not reported on MisfiredChan either"))
+    if r["test"] == "threshold":
+        if r["due_now_execs"] != 1:
+            why.append("%s: a job due at Start was executed %d times%s (reported as misfired: %d)" % (
+                cfg, r["due_now_execs"], "" if r["must_execute"] else " and not reported", r["reported_misfired"]))
+        if r["far_future_job_execs"]:
+            why.append("%s: a job whose fire time is math.MaxInt64-1000 was executed" % cfg)
+    if r["stop_hung"] or not r["wait_returned"]:
+        why.append("%s: Stop / Wait did not return within 6 s" % cfg)
+    return why
+
+
+OPTS_KEY = ("test", "mode", "misfired_chan_cap", "listener", "misfires_in_a_row", "outdated_threshold_ns", "retry_interval_ns")
+
+
+def run_opts(binp):
+    rc, rows, out = lc.run_json([binp, "opts"], timeout=300)
+    if rc != 0:
+        raise RuntimeError("looph opts failed: " + out[-2000:])
+    return [r for r in rows if r.get("kind") == "opts"]
+
+
+def opts_failures(binp):
+    rows = run_opts(binp)
+    bad = [r for r in rows if opts_oracle(r)]
+    out = []
+    if bad:
+        again = {tuple(r[k] for k in OPTS_KEY) for r in run_opts(binp) if opts_oracle(r)}
+        for r in [x for x in bad if tuple(x[k] for k in OPTS_KEY) in again][:2]:
+            out.append({"case": {"kind": "opts", **{k: r[k] for k in OPTS_KEY}}, "why": opts_oracle(r), "observed": r,
+                        "failing_configurations_in_this_run": len(bad),
+                        "how": "looph opts: (misfire) WithMisfiredChan(make(chan, cap)) + WithOutdatedThreshold(2 s), k jobs whose first fire time is 10 s "
+                               "in the past, Start, then ScheduleJob of a job due 10 ms later, DeleteJob, GetJobKeys under a 5 s watchdog; (threshold) the "
+                               "given WithOutdatedThreshold / WithRetryInterval, a job due at Start, one due 15 ms later, one at MaxInt64-1000"})
+    return rows, out
+
+
 def run_free(binp, seed, n):
     rc, rows, out = lc.run_json([binp, "free", str(seed), str(n)], timeout=1200)
     if rc != 0:
@@ -230,6 +281,8 @@ def run(ctx):
                     mismatches.append(b)
     restart_rows, rf = lc.restart_failures(binp, ctx.seed, 27 if ctx.tier == "quick" else 198)
     failures += rf
+    opts_rows, of = opts_failures(binp)
+    failures += of
     nfree = 240 if ctx.tier == "quick" else 3000
     if len(failures) >= 3:
         nfree = 24   # the gate scenarios already show the violation
@@ -275,7 +328,7 @@ def run(ctx):
                 "to its end. free: far head, random poke, head-moving call, queue sleeping inside Size/Head",
         "samples": [{"scenario": gate[0]["scen"], "obs": gate[0]["obs"][:8]}] if gate else [],
         "exhaustive": False,
-        "restart_trials": len(restart_rows), "gate_scenarios": len(gate), "gate_max_delay_ms": max([r["delay_ms"] for r in gate] or [0]),
+        "restart_trials": len(restart_rows), "option_extreme_and_misfire_listener_trials": len(opts_rows), "gate_scenarios": len(gate), "gate_max_delay_ms": max([r["delay_ms"] for r in gate] or [0]),
         "free_runs": len(free), "free_lost": len(lost),
         "free_delay_us_p50_p99_max": [delays[len(delays) // 2], delays[int(len(delays) * 0.99)], delays[-1]] if delays else [],
         "model_mismatches": len(mismatches), "oracle_failures": len(failures),
@@ -309,6 +362,13 @@ def replay(ctx, path):
         print(json.dumps({"trials": len(rows), "failing": len([r for r in rows if lc.restart_oracle(r)])}))
         if rf:
             vlib.report_violation(ctx, rf[0])
+            return 1
+        return 0
+    if c.get("kind") == "opts":
+        bad = [r for r in run_opts(binp) if all(r[k] == c.get(k) for k in OPTS_KEY) and opts_oracle(r)]
+        print(json.dumps(bad))
+        if bad:
+            vlib.report_violation(ctx, {"case": c, "why": opts_oracle(bad[0])})
             return 1
         return 0
     if c.get("kind") == "free":
